@@ -31,9 +31,15 @@ def _opt_default(t):
 @rule('VC-ACCESS', floor=7, **read_attribution({
     'C10': 'missing actors count as 0; merge/lub and from_iter go through into_iter/apply; dot(actor) pairs the actor with its own counter',
     'C20': 'every "drop the element when its witness clock is empty" decision calls VClock::is_empty; clocks built by from_iter / From<Dot> must be the canonical ones apply builds (no zero entries), or equal knowledge stops meaning equal clocks',
-    'C11': 'GCounter::read sums the dots that VClock::iter yields',
-}, module='vclock', own_filter={'C20': lambda i: i in ('is_empty', 'from_iter', 'from-dot', 'floor', 'anchor', 'internal'),
-                                'C11': lambda i: i in ('iter', 'get', 'floor', 'anchor', 'internal')}))
+    'C11': 'GCounter::read sums the dots that VClock::iter yields; inc derives the next total from dot(actor); merge walks into_iter',
+    'C12': '[primitive] List::apply gates on clock.get(actor); insert_index / append / delete_index tag their ops with clock.inc = dot(actor).inc()',
+    'C16': '[primitive] VClock::validate_op compares the dot with get(actor) (VC-VALIDATE)',
+    'C17': '[primitive] Orswot / Map validate_merge compare witness counters with the other clock through get / iter',
+}, module='vclock', own_filter={'C20': lambda i: i in ('is_empty', 'from_iter', 'from-dot', 'get', 'iter', 'into_iter', 'floor', 'anchor', 'internal'),
+                                'C11': lambda i: i in ('iter', 'get', 'dot', 'into_iter', 'floor', 'anchor', 'internal'),
+                                'C12': lambda i: i in ('get', 'dot', 'floor', 'anchor', 'internal'),
+                                'C16': lambda i: i in ('get', 'floor', 'anchor', 'internal'),
+                                'C17': lambda i: i in ('get', 'iter', 'is_empty', 'floor', 'anchor', 'internal')}))
 def vc_access(ctx):
     """VClock::get = stored counter or 0; is_empty = no entry; dot(a) = Dot{a, get(a)}; iter / into_iter yield every
     entry as Dot{actor, counter}; from_iter / From<Dot> apply every given dot to an empty clock."""
@@ -53,7 +59,8 @@ def vc_access(ctx):
             # two-armed form: the constant arm must be the absent case and nothing else (a constant answered on some other
             # condition - a "fast path" - is a wrong counter for a present actor)
             it_ = interp(facts, body)
-            rc_ = Reach(facts, body, Evaluator(facts, bool_atom=lambda t: clock_presence_atom(t, 1), assumption={'present': True}))
+            empt_ = emptiness_atom({'c': (1, ('dots',))})
+            rc_ = Reach(facts, body, Evaluator(facts, bool_atom=lambda t: clock_presence_atom(t, 1) or empt_(t), assumption={'present': True, 'c': False}))
             for (b_, _si), w_ in it_.ret_assigns.items():
                 if b_ in rc_.reachable and any(drop_lv(a_)[0] == 'const' for a_ in phi_alts(w_.val)):
                     ok = False
